@@ -5,7 +5,7 @@
    for it.  Batches and scripts are ARBITRARY; run_batch is a structurally recursive total
    function (no fuel), which is the model-level statement of "the batch ends". *)
 From Coq Require Import String.
-From V Require Import C11_Spec C11_Proofs C11_ProcProofs.
+From V Require Import C11_Spec C11_Proofs C11_ProcProofs C11_StartProofs.
 Open Scope nat_scope.
 
 (* exactly one outcome for every case of the batch, none for anything else *)
@@ -149,6 +149,50 @@ Theorem batch_stop_bounded : forall P pk sv cs, p_giveup P = true ->
 Proof. exact batch_stop_bounded_proof. Qed.
 Print Assumptions batch_stop_bounded.
 
+(* ---- the start phase over a real OS process: writing the request to the child's stdin ----
+   (C11_Start.v: the two writes of WriteDelimitedMessage on the io.Pipe that os/exec copies into the
+   child's stdin.)  For EVERY plumbing, request size, OS pipe capacity, starter delay, response time-out,
+   durations with a time-out on the second wait, and EVERY child stdin script in which the child takes the
+   whole request, or the request fits unread and the child keeps its stdin, or the child lets go of its
+   stdin in a way the plumbing notices: runTestCasesForServer returns from a failed start within
+   (the later of the starter's delay and the child's own delay) + the response time-out + the two waits of
+   abort's goroutine.  Not covered (lets_go fails): a child that keeps its stdin open without reading a
+   request larger than the pipe takes — the write blocks, in the code too; the runner's own requests are
+   a few KB. *)
+Theorem start_fault_bounded : forall pl P cap len sd rt sc ch,
+  p_giveup P = true -> lets_go pl cap len sc ->
+  returns_by (start_fault_return pl P cap len sd rt sc ch)
+             (N.max sd (sc_delay sc) + rt + (p_grace P + p_grace2 P))%N.
+Proof. exact start_fault_bounded_proof. Qed.
+Print Assumptions start_fault_bounded.
+
+(* ... the plumbing of process.go as it is (the pipe's reading end is closed after cmd.Wait, i.e. after
+   the child EXITED) is enough for every child that lets go of its stdin by exiting: dead before the first
+   byte is written, after reading k bytes, after any delay, with a request of any size *)
+Theorem start_fault_bounded_code : forall P cap len sd rt sc ch,
+  p_giveup P = true ->
+  (sc_all sc = true \/ (fits cap len sc = true /\ sc_release sc = None) \/ exists c, sc_release sc = Some (RExit c)) ->
+  returns_by (start_fault_return code_plumbing P cap len sd rt sc ch)
+             (N.max sd (sc_delay sc) + rt + (p_grace P + p_grace2 P))%N.
+Proof. exact start_fault_bounded_code_proof. Qed.
+Print Assumptions start_fault_bounded_code.
+
+(* the write itself: done or failed, between the moment the runner writes and the moment the child lets go *)
+Theorem start_write_returns : forall pl cap len sd sc, lets_go pl cap len sc ->
+  exists t, (start_write pl cap len sd sc = WDone t \/ start_write pl cap len sd sc = WFail t) /\
+            (sd <= t)%N /\ (t <= N.max sd (sc_delay sc))%N.
+Proof. exact start_write_returns_proof. Qed.
+Print Assumptions start_write_returns.
+
+(* ... and a plumbing that closes the reading end on neither occasion never wakes the writer of a request
+   that a child which had let go before the write did not take (seed C11-16: `stdin.Close()` after cmd.Wait
+   removed) *)
+Theorem unwoken_write_never : forall cap len sd sc how,
+  sc_all sc = false -> sc_release sc = Some how -> sc_reads sc = 0%N -> (sc_delay sc <= sd)%N ->
+  start_write (mkPl false false) cap len sd sc = WNever.
+Proof. exact unwoken_write_never_proof. Qed.
+Print Assumptions unwoken_write_never.
+
 (* ---- non-vacuity ---- *)
 Definition cse (n : string) (ok : bool) (a : ans) (d : nat) : case := mkCase (bs n) ok a d (bs n) [].
 Arguments cse n%string ok a d.
@@ -251,3 +295,46 @@ Example ex_local_stuck :
   stop_time (P5 0 true) (PLocal (mkLc false None false)) 2 = Some 10000%N /\
   pr_class (local_stop (P5 0 true) (mkLc false None false)) = CDeadline.
 Proof. vm_compute. split; reflexivity. Qed.
+
+(* the start phase.  A child that exits with status 3 at once, without reading; the starter hands the
+   process over one second later; a 256 KiB request: the write fails at 1000 and the function returns
+   then (the child is gone: result() at once) — with the code's plumbing *)
+Definition dead_child : schild := mkSc false false 0 0 (Some (RExit 3)).
+Definition sigterm_child : child := mkChild None (TExit 0 0) None true false.
+Example ex_dead_before_write :
+  start_write code_plumbing 65536 262200 1000 dead_child = WFail 1000 /\
+  start_fault_return code_plumbing (P5 5000 true) 65536 262200 1000 10000 dead_child sigterm_child = Some 1000%N.
+Proof. vm_compute. split; reflexivity. Qed.
+(* it sleeps 2 s without reading and exits: the write of the big request is blocked until then; a small
+   request is taken by the OS pipe at once and the response read ends when the child goes *)
+Example ex_sleeps_then_exits :
+  start_write code_plumbing 65536 262200 0 (mkSc false false 2000 0 (Some (RExit 3))) = WFail 2000 /\
+  start_fault_return code_plumbing (P5 5000 true) 65536 40 0 10000 (mkSc false false 2000 0 (Some (RExit 3))) sigterm_child
+    = Some 2000%N.
+Proof. vm_compute. split; reflexivity. Qed.
+(* reads 100 bytes of a big request, then exits *)
+Example ex_reads_some : start_write code_plumbing 65536 262200 1000 (mkSc false false 0 100 (Some (RExit 0))) = WFail 1000.
+Proof. vm_compute. reflexivity. Qed.
+(* lets_go is inhabited in all three ways *)
+Example ex_lets_go :
+  lets_go code_plumbing 65536 40 (mkSc true true 0 0 None) /\ lets_go code_plumbing 65536 40 (mkSc false false 0 0 None) /\
+  lets_go code_plumbing 65536 262200 dead_child.
+Proof. split; [left; reflexivity|split; [right; left; split; reflexivity|right; right; exists (RExit 3); split; reflexivity]]. Qed.
+(* seed C11-16 (nobody closes the reading end after the exit): the writer is never woken, the function
+   never returns *)
+Example seeded_plumbing_refuted :
+  start_fault_return (mkPl false false) (P5 5000 true) 65536 262200 1000 10000 dead_child sigterm_child = None.
+Proof. vm_compute. reflexivity. Qed.
+(* KNOWN FINDING (class request-write-unbounded): a child that CLOSES its stdin unread and stays alive.
+   With the code's plumbing the pending write is never woken (cmd.Wait does not return while the child
+   lives, abort is only reached after the write); a plumbing that closes the reading end when the copy into
+   the child's stdin stops would fail the write at once; a small request written BEFORE the child closes
+   is taken by the OS pipe and the start fails after the response time-out *)
+Definition closes_stdin : schild := mkSc false false 0 0 (Some RClose).
+Example code_plumbing_close_alive_refuted :
+  start_fault_return code_plumbing (P5 5000 true) 65536 262200 0 10000 closes_stdin sigterm_child = None /\
+  start_fault_return code_plumbing (P5 5000 true) 65536 40 1000 10000 closes_stdin sigterm_child = None /\
+  start_fault_return repaired_plumbing (P5 5000 true) 65536 262200 0 10000 closes_stdin sigterm_child = Some 0%N /\
+  start_fault_return code_plumbing (P5 5000 true) 65536 40 0 10000 (mkSc false false 2000 0 (Some RClose)) sigterm_child
+    = Some 10000%N.
+Proof. vm_compute. repeat split; reflexivity. Qed.
